@@ -42,6 +42,9 @@ def atom_thunks():
             add(f"{nm} {v}", lambda mk=mk, v=v: mk(v))
     add("eq 'a'", lambda: eq_p("a"))
     add("eq None", lambda: eq_p(None))
+    add("ne None", lambda: ne_p(None))
+    add("ne 'a'", lambda: ne_p("a"))
+    add("eq ''", lambda: eq_p(""))
     add("eq True", lambda: eq_p(True))
     add("eq 1.0", lambda: eq_p(1.0))
     add("ge 'a'", lambda: ge_p("a"))
@@ -49,7 +52,7 @@ def atom_thunks():
         for lo, hi in ((1, 2), (1, 3), (2, 2), (3, 1)):
             add(f"{nm} {lo} {hi}", lambda mk=mk, lo=lo, hi=hi: mk(lo, hi))
     for mk, nm in ((in_p, "in"), (not_in_p, "not_in")):
-        for s in ((), (1,), (1, 2), (2, 1), (1, 2, 3), ("a", 1)):
+        for s in ((), (1,), (1, 2), (2, 1), (1, 2, 3), ("a", 1), (None,), ("a",), (None, 1), (True,), (2.5,)):
             add(f"{nm} {s}", lambda mk=mk, s=s: mk(*s))
     for mk, nm in ((is_subset_p, "subset"), (is_real_subset_p, "real_subset"), (is_superset_p, "superset"), (is_real_superset_p, "real_superset")):
         for s in (set(), {1}, {1, 2}, {2, 3}):
@@ -76,6 +79,9 @@ def atom_thunks():
     for pat in ("^foo", "^bar", "a+"):
         add(f"regex {pat}", lambda pat=pat: regex_p(pat))
     add("regex ^foo IGNORECASE", lambda: RegexPredicate("^foo", re.IGNORECASE))
+    # compiled patterns are accepted too (re.compile hands them back): equality is on what was passed in
+    add("regex compiled ^foo", lambda: RegexPredicate(re.compile("^foo")))
+    add("regex compiled ^foo IGNORECASE", lambda: RegexPredicate(re.compile("^foo", re.IGNORECASE)))
     for r in ("x", "y"):
         add(f"lazy {r}", lambda r=r: lazy_p(r))
     add("this", lambda: ThisPredicate())
@@ -132,4 +138,4 @@ def composite_thunks(rng, atoms, n):
     return out
 
 
-PROBE_VALUES = [[0], [None], [""], [[]], (0,), {0}, [0, 0], (None, 0), [False], 0, 0.5, 1, 1.5, 2, 2.5, 3, 3.5, True, False, None, "a", "", "foo", "foobar", "bar", [], [1], [1, 2], (1,), (1, "a"), ("a", 1), (), {1}, {1, 2}, set(), {"a": 1}, {"a": 1, "b": "x"}, {}, {"b": 2}, {1: 1}]
+PROBE_VALUES = [[0], [None], [""], [[]], (0,), {0}, [0, 0], (None, 0), [False], 0, 0.5, 1, 1.5, 2, 2.5, 3, 3.5, True, False, None, "a", "", "foo", "foobar", "bar", "FOO", "Foobar", "aaa", [], [1], [1, 2], (1,), (1, "a"), ("a", 1), (), {1}, {1, 2}, set(), {"a": 1}, {"a": 1, "b": "x"}, {}, {"b": 2}, {1: 1}]
